@@ -1,6 +1,6 @@
 (* C06 — Source addresses print to strings that parse back to the same address.
    Only statements, each closed by [exact] of a lemma proved elsewhere. *)
-From Slug Require Import Base.Str Base.PathAlg Addr.Resolve Addr.ResolveProofs Addr.Url Addr.Parse Addr.ParseProofs Addr.RoundTrip Addr.RoundTripFinal Addr.RemoteParse Addr.RemoteTheorems.
+From Slug Require Import Base.Str Base.PathAlg Addr.Resolve Addr.ResolveProofs Addr.Url Addr.Parse Addr.ParseProofs Addr.RoundTrip Addr.RoundTripFinal Addr.RemoteParse Addr.RemoteTheorems Addr.Classify.
 
 (* ---- local addresses ---- *)
 (* a local address value is the text that was parsed: printing and parsing are inverse *)
@@ -82,6 +82,58 @@ Theorem C06_parse_remote_structured :
                         (parsed_url scheme host path query) sub).
 Proof. exact parse_remote_structured. Qed.
 Print Assumptions C06_parse_remote_structured.
+
+(* ---- "of the same kind": the general parsers ----
+   ParseSource and ParseFinalSource classify by syntax (local form, then "the registry
+   parser accepts it", then remote).  A printed address goes back to the parser of the
+   kind it was printed from: a printed registry address never has local form, and a
+   printed remote address has neither local form nor is accepted by the registry parser
+   (the "//" after the scheme leaves an empty namespace).  The two general parsers add
+   one rule of their own, no leading or trailing white space, which is why that is a
+   hypothesis here (classify_local_outer_space shows it is needed); [outer_ascii] is the
+   model's limit (white-space trimming is modelled for ASCII first and last bytes). *)
+Theorem C06_same_kind_local :
+  forall r, parse_local r = Some r -> outer_ascii r = true -> has_outer_space r = false ->
+    parse_source r = Ok (ALocal r) /\ parse_final_source r = Ok (ALocal r).
+Proof. exact classify_local. Qed.
+Print Assumptions C06_same_kind_local.
+
+Theorem C06_same_kind_registry :
+  forall p sub, wf_mpkgb p = true -> valid_sub sub -> ~ In c_qmark sub -> all_ascii sub = true ->
+    outer_ascii (registry_string p sub) = true -> has_outer_space (registry_string p sub) = false ->
+    parse_source (registry_string p sub) = Ok (ARegistry p sub).
+Proof. exact classify_registry. Qed.
+Print Assumptions C06_same_kind_registry.
+
+Theorem C06_same_kind_final_registry :
+  forall p v sub, wf_mpkgb p = true -> ~ In c_nl (m_host p) -> wf_version v = true ->
+    valid_sub sub -> ~ In c_qmark sub -> ~ In c_at sub -> ~ In c_nl sub -> all_ascii sub = true ->
+    outer_ascii (final_registry_string p v sub) = true -> has_outer_space (final_registry_string p v sub) = false ->
+    parse_final_source (final_registry_string p v sub) = Ok (ARegistryFinal p v sub).
+Proof. exact classify_final_registry. Qed.
+Print Assumptions C06_same_kind_final_registry.
+
+(* PARTIAL for ParseFinalSource: proved for printed remote addresses without '@' (with one, the
+   final parser first tries the text before the last '@' as a registry address; decided per
+   run by the addr stream's same-kind oracle, which has no such restriction) *)
+Theorem C06_same_kind_remote :
+  forall p sub, wf_remoteb p sub = true ->
+    outer_ascii (remote_string p sub) = true -> has_outer_space (remote_string p sub) = false ->
+    parse_source (remote_string p sub) = Ok (ARemote p sub) /\
+    (~ In c_at (remote_string p sub) -> parse_final_source (remote_string p sub) = Ok (ARemote p sub)).
+Proof. exact classify_remote. Qed.
+Print Assumptions C06_same_kind_remote.
+
+(* the registry parser refuses every structured remote text *)
+Theorem C06_registry_parser_refuses_remote_text :
+  forall typ scheme host path sub query,
+    parts_ok typ scheme host path sub query -> to_lower typ = typ -> to_lower scheme = scheme ->
+    parse_module_source (remote_text typ scheme host path sub query) = Rej.
+Proof. exact module_source_rejects_structured. Qed.
+Print Assumptions C06_registry_parser_refuses_remote_text.
+
+Example C06_same_kind_hypotheses_satisfiable : classify_example_check = true.
+Proof. exact classify_examples. Qed.
 
 (* ---- remote, registry and final registry addresses: where the statement fails ----
    The full statement "every value prints to text that parses back to it" is
